@@ -2,6 +2,9 @@ import RedisGoModel.Props.C08ReadyInv
 /-! Preservation of `Inv` by the statements of the arm.  Core Lean only. -/
 namespace ReadyLoop
 
+/-- decide a membership in a concrete `todo` that sits under a structure projection -/
+macro "tdec" : tactic => `(tactic| first | decide | (dsimp only; decide))
+
 theorem Grows.refl (v : View) : Grows v v := ⟨rfl, Nat.le_refl _, Nat.le_refl _, fun _ hx _ => hx⟩
 
 /-- the disk changed without new hard states or entries: every crash image of the new disk is a crash image of the old one, grown -/
@@ -113,8 +116,8 @@ theorem VOk_skip {s : State} {st : Stmt} {rest : List Stmt} {d' : Disk} (ht : s.
 /-- **the generic step**: the disk changes, node, Ready and promises stay, `st` leaves `todo`; what the crash images (all of them if the new
     state is settled, and the full one) satisfy is supplied by the caller -/
 theorem inv_disk {c : Cfg} {s : State} {st : Stmt} {rest : List Stmt} {d' : Disk} (h : Inv c s) (ht : s.todo = st :: rest)
-    (i1 : st ≠ .walWrite) (i2 : st ≠ .append) (i3 : st ≠ .send) (i4 : st ≠ .publish) (i5 : st ≠ .advance)
-    (i6 : s.rd.snap.isEmpty = false → st ≠ .applySnap)
+    (i1 : st ≠ .walWrite) (i5 : st ≠ .advance)
+    (eL : L { s with disk := d', todo := rest } = L s) (eP : lastP { s with disk := d', todo := rest } = lastP s)
     (i8 : ∀ sn, s.node.trig = some sn → st ≠ .trigCompact)
     (hsafe : Safe { s with disk := d', todo := rest })
     (hfull : ∃ v, replay d' d'.buffered.length = some v ∧ FullOk { s with disk := d', todo := rest } v)
@@ -127,14 +130,6 @@ theorem inv_disk {c : Cfg} {s : State} {st : Stmt} {rest : List Stmt} {d' : Disk
   have hsuf : (st :: rest) ∈ tailsOf theArm := ht ▸ h.suf
   have m1 := mem_rest ht
   have m2 := mem_todo ht
-  have eL : L { s with disk := d', todo := rest } = L s := L_skip ht i1 i2
-  have eP : lastP { s with disk := d', todo := rest } = lastP s := by
-    unfold lastP
-    rw [eL]
-    by_cases hsn : s.rd.snap.isEmpty = false
-    · have e1 : Stmt.applySnap ∈ rest ↔ Stmt.applySnap ∈ s.todo := ⟨m1 _, m2 _ (i6 hsn)⟩
-      simp only [e1]
-    · simp at hsn; simp [hsn]
   refine
     { down := h.down, suf := tails_tail hsuf, safe := hsafe, full := hfull, imgs := himgs, node := h.node, idle := ?_,
       novote0 := h.novote0, rdW := ?_, post := ?_, trigF := ?_ }
@@ -153,8 +148,17 @@ theorem inv_disk {c : Cfg} {s : State} {st : Stmt} {rest : List Stmt} {d' : Disk
         sendF := fun hs => by rw [eP]; exact hp.sendF (m1 _ hs)
         pubF := fun hpb => by rw [eL]; exact hp.pubF (m1 _ hpb) }
   · intro sn hsn
-    obtain ⟨a, b, cc, dd, e⟩ := h.trigF sn hsn
-    exact ⟨m2 _ (i8 sn hsn) a, fun hc => b (m1 _ hc), cc, hfiles _ dd, hrec sn hsn⟩
+    obtain ⟨a, b, cc, c2, dd, e⟩ := h.trigF sn hsn
+    exact ⟨m2 _ (i8 sn hsn) a, fun hc => b (m1 _ hc), cc, c2, hfiles _ dd, hrec sn hsn⟩
+
+theorem lastP_skip {s : State} {st : Stmt} {rest : List Stmt} {d' : Disk} (ht : s.todo = st :: rest) (i1 : st ≠ .walWrite) (i2 : st ≠ .append)
+    (i6 : s.rd.snap.isEmpty = false → st ≠ .applySnap) : lastP { s with disk := d', todo := rest } = lastP s := by
+  unfold lastP
+  rw [L_skip ht i1 i2]
+  by_cases hsn : s.rd.snap.isEmpty = false
+  · have e1 : Stmt.applySnap ∈ rest ↔ Stmt.applySnap ∈ s.todo := ⟨mem_rest ht _, mem_todo ht _ (i6 hsn)⟩
+    simp only [e1]
+  · simp at hsn; simp [hsn]
 
 theorem safe_grows {s : State} {d' : Disk} {rest : List Stmt} (hg : DiskGrows s.disk d') (h : Safe s) :
     Safe { s with disk := d', todo := rest } :=
@@ -162,7 +166,7 @@ theorem safe_grows {s : State} {d' : Disk} {rest : List Stmt} (hg : DiskGrows s.
 
 /-- the generic step for a disk that only grew, the crash images of a settled new state supplied by the caller -/
 theorem inv_grow' {c : Cfg} {s : State} {st : Stmt} {rest : List Stmt} {d' : Disk} (h : Inv c s) (ht : s.todo = st :: rest)
-    (i1 : st ≠ .walWrite) (i2 : st ≠ .append) (i3 : st ≠ .send) (i4 : st ≠ .publish) (i5 : st ≠ .advance)
+    (i1 : st ≠ .walWrite) (i2 : st ≠ .append) (i5 : st ≠ .advance)
     (i6 : s.rd.snap.isEmpty = false → st ≠ .applySnap)
     (i8 : ∀ sn, s.node.trig = some sn → st ≠ .trigWalWrite ∧ st ≠ .trigCompact)
     (hg : DiskGrows s.disk d')
@@ -170,22 +174,22 @@ theorem inv_grow' {c : Cfg} {s : State} {st : Stmt} {rest : List Stmt} {d' : Dis
     (hsnapW : Stmt.walWrite ∈ rest → s.rd.snap.isEmpty = false → (Stmt.snapFile ∉ rest → s.rd.snap ∈ d'.files) ∧
       (Stmt.snapWalWrite ∉ rest → (s.rd.snap.index, s.rd.snap.term) ∈ snapRecs d'.all)) :
     Inv c { s with disk := d', todo := rest } := by
-  refine inv_disk h ht i1 i2 i3 i4 i5 i6 (fun sn hsn => (i8 sn hsn).2) (safe_grows hg h.safe) ?_ himgs hg.files ?_ hsnapW
+  refine inv_disk h ht i1 i5 (L_skip ht i1 i2) (lastP_skip ht i1 i2 i6) (fun sn hsn => (i8 sn hsn).2) (safe_grows hg h.safe) ?_ himgs hg.files ?_ hsnapW
   · exact hg.full (fun v v' g hF => (FullOk.grows g ⟨hF.1, VOk_skip ht i1 i2 false (fun sn hsn => (i8 sn hsn).1) _ hF.2⟩ :
       FullOk { s with disk := d', todo := rest } v')) h.full
   · intro sn hsn hw
-    exact hg.recs _ ((h.trigF sn hsn).2.2.2.2 (fun hc => hw (mem_todo ht _ (i8 sn hsn).1 hc)))
+    exact hg.recs _ ((h.trigF sn hsn).2.2.2.2.2 (fun hc => hw (mem_todo ht _ (i8 sn hsn).1 hc)))
 
 /-- the generic step when nothing becomes settled by it -/
 theorem inv_grow {c : Cfg} {s : State} {st : Stmt} {rest : List Stmt} {d' : Disk} (h : Inv c s) (ht : s.todo = st :: rest)
-    (i1 : st ≠ .walWrite) (i2 : st ≠ .append) (i3 : st ≠ .send) (i4 : st ≠ .publish) (i5 : st ≠ .advance)
+    (i1 : st ≠ .walWrite) (i2 : st ≠ .append) (i5 : st ≠ .advance)
     (i6 : s.rd.snap.isEmpty = false → st ≠ .applySnap ∧ st ≠ .walSync) (i7 : s.node.mustSync = true → st ≠ .walFlush)
     (i8 : ∀ sn, s.node.trig = some sn → st ≠ .trigWalWrite ∧ st ≠ .trigCompact ∧ st ≠ .trigWalSync)
     (hg : DiskGrows s.disk d')
     (hsnapW : Stmt.walWrite ∈ rest → s.rd.snap.isEmpty = false → (Stmt.snapFile ∉ rest → s.rd.snap ∈ d'.files) ∧
       (Stmt.snapWalWrite ∉ rest → (s.rd.snap.index, s.rd.snap.term) ∈ snapRecs d'.all)) :
     Inv c { s with disk := d', todo := rest } := by
-  refine inv_grow' h ht i1 i2 i3 i4 i5 (fun hsn => (i6 hsn).1) (fun sn hsn => ⟨(i8 sn hsn).1, (i8 sn hsn).2.1⟩) hg ?_ hsnapW
+  refine inv_grow' h ht i1 i2 i5 (fun hsn => (i6 hsn).1) (fun sn hsn => ⟨(i8 sn hsn).1, (i8 sn hsn).2.1⟩) hg ?_ hsnapW
   intro hs
   have hs' : Settled s := by
     refine ⟨fun hf => ?_, fun hsn => ?_⟩
